@@ -399,6 +399,7 @@ func (sh *Shared) inputSyms(inputs []inputRec) map[string]uint8 {
 
 func renderInputs(inputs []inputRec, model map[string]uint64) []inputJSON {
 	out := make([]inputJSON, 0, len(inputs))
+	memo := map[*Term]uint64{}
 	for _, in := range inputs {
 		ij := inputJSON{Label: in.Label, Kind: in.Kind, N: in.Conc}
 		switch in.Kind {
@@ -407,14 +408,14 @@ func renderInputs(inputs []inputRec, model map[string]uint64) []inputJSON {
 		case "bytes", "string", "bytescap":
 			b := make([]byte, len(in.Terms))
 			for i, t := range in.Terms {
-				b[i] = byte(model[t.name])
+				b[i] = byte(Eval(t, model, memo))
 			}
 			ij.Hex = fmt.Sprintf("%x", b)
 		case "clock":
-			ij.Val = model[in.Terms[0].name]
-			ij.N = int64(model[in.Terms[1].name])
+			ij.Val = Eval(in.Terms[0], model, memo)
+			ij.N = int64(Eval(in.Terms[1], model, memo))
 		default:
-			ij.Val = model[in.Terms[0].name]
+			ij.Val = Eval(in.Terms[0], model, memo)
 		}
 		out = append(out, ij)
 	}
